@@ -1254,3 +1254,63 @@ pub fn params_sequence_agrees_with_parse() -> Value {
 	}
 	json!({"probe":"params_sequence_agrees_with_parse","disagrees":false,"inputs_tried":tried,"bound":"arrays of 0..3 elements from 12 element texts x 6 separators x 4 open/close spellings (incl. CRLF)"})
 }
+
+// ------------------------------------------------------------------------------------------
+/// C14: the host filter in front of a counting stub service.
+pub fn host_filter_gate() -> Value {
+	use jsonrpsee_server::middleware::http::HostFilterLayer;
+	use std::sync::atomic::{AtomicUsize, Ordering};
+	use tower::{Layer, Service};
+	rt().block_on(async {
+		// (allow-list, Host header, URI, expected status: 200 = passed on)
+		let cases: Vec<(Vec<&str>, Option<&str>, &str, u16)> = vec![
+			(vec!["parity.io:443"], Some("parity.io:443"), "/", 200),
+			(vec!["parity.io:443"], Some("parity.io:444"), "/", 403),
+			(vec!["parity.io:443"], Some("parity.io"), "/", 403),
+			(vec!["parity.io:443"], Some("parity.io:*"), "/", 403),
+			(vec!["parity.io"], Some("parity.io:*"), "/", 403),
+			(vec!["parity.io:*"], Some("parity.io:1234"), "/", 200),
+			(vec!["parity.io:*"], Some("parity.io"), "/", 200),
+			(vec!["parity.io"], Some("parity.io"), "/", 200),
+			(vec!["parity.io"], Some("PARITY.IO"), "/", 403),
+			(vec!["MyNode.local:9944"], Some("MyNode.local:9944"), "/", 200),
+			(vec!["MyNode.local:9944"], Some("mynode.local:9944"), "/", 403),
+			(vec!["*.parity.io"], Some("a.parity.io"), "/", 200),
+			(vec!["*.parity.io"], Some("parity.io"), "/", 403),
+			(vec!["*.parity.io"], Some("evil.io"), "/", 403),
+			(vec!["parity.io", "localhost:9933"], Some("localhost:9933"), "/", 200),
+			(vec!["parity.io", "localhost:9933"], Some("localhost:9934"), "/", 403),
+			(vec!["parity.io:80", "parity.io:81"], Some("parity.io:81"), "/", 200),
+			(vec!["parity.io:80", "parity.io:81"], Some("parity.io:82"), "/", 403),
+			(vec!["parity.io"], None, "/", 400),
+			(vec!["parity.io"], Some("parity.io"), "http://other.io/", 400),
+			(vec!["parity.io"], Some("parity.io"), "http://parity.io/", 200),
+			(vec!["parity.io"], Some("parity.io:99999"), "/", 400),
+			(vec![], Some("parity.io"), "/", 403),
+		];
+		let mut tried = 0;
+		for (allow, host, uri, want) in cases {
+			tried += 1;
+			let calls = std::sync::Arc::new(AtomicUsize::new(0));
+			let calls2 = calls.clone();
+			let stub = tower::service_fn(move |_req: http::Request<jsonrpsee_server::HttpBody>| {
+				calls2.fetch_add(1, Ordering::SeqCst);
+				async { Ok::<_, jsonrpsee_core::BoxError>(http::Response::new(jsonrpsee_server::HttpBody::default())) }
+			});
+			let layer = match HostFilterLayer::new(allow.clone()) { Ok(l) => l, Err(e) => return json!({"probe":"host_filter_gate","error":format!("allow-list {:?} rejected: {e}", allow)}) };
+			let mut svc = layer.layer(stub);
+			let mut b = http::Request::builder().method("POST").uri(uri);
+			if let Some(h) = host {
+				b = b.header("host", h);
+			}
+			let req = b.body(jsonrpsee_server::HttpBody::default()).unwrap();
+			let status = match svc.call(req).await { Ok(rp) => rp.status().as_u16(), Err(_) => 0 };
+			let ran = calls.load(Ordering::SeqCst);
+			if status != want || (want != 200 && ran != 0) || (want == 200 && ran != 1) {
+				return json!({"probe":"host_filter_gate","disagrees":true,"input":format!("allow-list {:?}, Host header {:?}, request URI {:?}", allow, host, uri),
+					"observed": format!("status {status}, inner service called {ran} time(s)"), "expected": format!("status {want}{}", if want == 200 {", inner service called once"} else {", inner service not called"})});
+			}
+		}
+		json!({"probe":"host_filter_gate","disagrees":false,"inputs_tried":tried})
+	})
+}
